@@ -137,8 +137,7 @@ Inductive cop :=
 | CRequeue (t0 t1 now id client delay : Z)
 | CPutDef (t0 t1 now id delay : Z)
 | CScanIF (t : Z)
-| CScanDef (t : Z)
-| CAge (delta : Z).   (* harness: every deadline and deliveryTS moved delta into the past = delta elapsed *)
+| CScanDef (t : Z).
 
 (* code 0 = nil error, 1 = error, 3 = a scan; ready = handles found on the channel's memory
    queue afterwards; heaps in array order; maps sorted by id *)
@@ -156,12 +155,6 @@ Fixpoint insert_t (x : Z * Z * Z) (l : list (Z * Z * Z)) : list (Z * Z * Z) :=
   end.
 Definition sort_t (l : list (Z * Z * Z)) : list (Z * Z * Z) := fold_right insert_t [] l.
 
-Definition age_pq (d : Z) (q : pq) : pq :=
-  mkPq (map (fun x => mkItem (pri x - d) (idx x) (val x)) (arr q)) (cap q).
-Definition age_chan (d : Z) (c : chan) : chan :=
-  mkChan (map (fun m => mkMsg (m_id m) (m_client m) (m_delivery m - d)) (c_inflight c))
-         (age_pq d (c_ifq c)) (c_deferred c) (age_pq d (c_dfq c)).
-
 Definition cop_step (max_msg : Z) (c : chan) (o : cop) : bool * chan * out :=
   let win t0 now t1 := (t0 <=? now) && (now <=? t1) in
   match o with
@@ -172,7 +165,6 @@ Definition cop_step (max_msg : Z) (c : chan) (o : cop) : bool * chan * out :=
   | CPutDef t0 t1 now id delay => let '(c', x) := step max_msg c (PutDeferred now id delay) in (win t0 now t1, c', x)
   | CScanIF t => let '(c', x) := step max_msg c (ScanInFlight t) in (true, c', x)
   | CScanDef t => let '(c', x) := step max_msg c (ScanDeferred t) in (true, c', x)
-  | CAge d => (true, age_chan d c, Ok)
   end.
 
 Definition zlist_eqb := list_eqb Z.eqb.
@@ -241,7 +233,7 @@ Definition cop_monitor (max_msg : Z) (o : cop) (before after : cobs) : bool :=
   | CScanDef t =>
       scan_monitor (co_df before) t (co_ready after) (co_df after)
       && zlist_eqb (co_dfmap after) (sort_z (map (fun '(_, _, v) => v) (co_df after)))
-  | CFinish _ _ | CAge _ => true
+  | CFinish _ _ => true
   end.
 
 Fixpoint run_chan (max_msg : Z) (c : chan) (before : cobs) (steps : list (cop * cobs)) : bool * bool :=
@@ -288,7 +280,9 @@ Inductive case :=
            (drained : list Z) (after : list (Z * Z * Z))
   (* a run of operations on one real channel (real nsqd, periodic scan parked), from its
      creation with heap capacity capq: after every operation both heaps, both maps *)
-| ChanRun (max_msg capq : Z) (steps : list (cop * cobs)).
+| ChanRun (max_msg capq : Z) (steps : list (cop * cobs))
+  (* one real util.UniqRands(quantity, maxval) call (queueScanLoop's channel selection) *)
+| Uniq (quantity maxval : Z) (res : list Z).
 
 Definition to_bytes (l : list Z) : bytes := map Z.to_N l.
 
@@ -398,4 +392,12 @@ Definition judge (c : case) : N :=
       let '(a, m) := run_chan max_msg (empty_chan (Z.to_nat capq))
                               (mkCobs 0 [] [] [] capq [] [] capq) steps in
       verdict a m
+  | Uniq quantity maxval res =>
+      let ok := (Z.of_nat (length res) =? Z.min quantity maxval)
+                && forallb (fun x => (0 <=? x) && (x <? maxval)) res
+                && zlist_eqb (sort_z res) (sort_z (nodup Z.eq_dec res)) in
+      (* the model cannot predict the random picks; it predicts their shape, and all of
+         them when quantity >= maxval *)
+      let all := negb (maxval <=? quantity) || zlist_eqb (sort_z res) (map Z.of_nat (seq 0 (Z.to_nat maxval))) in
+      verdict (ok && all) (ok && all)
   end.
